@@ -131,11 +131,11 @@ def trimmedBase (api : Api) : Bytes :=
 
 def trimPrefix (s pre : Bytes) : Bytes := if pre.isPrefixOf s then s.drop pre.length else s
 
-/-- `d.api.HandlerFor(method, strings.TrimPrefix(path, bp))`: handlers are registered under the
-upper-cased method and the template exactly as written in the description -/
+/-- `d.api.HandlerFor(method, opPath)`: handlers are registered under the upper-cased method and
+the template exactly as written in the description, and (since the F19a/F01e repair) asked for
+under that same spelling -/
 def hasHandler (api : Api) (op : Op) : Bool :=
-  let asked := trimPrefix (fullPath api op) (trimmedBase api)
-  api.ops.any fun o => toUpper o.method == toUpper op.method && o.template == asked
+  api.ops.any fun o => toUpper o.method == toUpper op.method && o.template == op.template
 
 /-- the records filed under one (upper-cased) method: `(key, index of the operation)` -/
 def recordsFor (api : Api) (method : Bytes) : List (Bytes × Nat) :=
@@ -301,11 +301,6 @@ def oddStatic (api : Api) : Bool :=
         | .lit b => b.contains colon || b.contains 42
         | _ => false
 
-/-- F01e: a template that is not in `path.Clean` form (e.g. a trailing slash) is asked for under
-its cleaned spelling and finds no handler: the operation is never routed -/
-def uncleanTemplate (api : Api) : Bool :=
-  api.ops.any fun op => trimPrefix (fullPath api op) (trimmedBase api) != op.template
-
 def dupKeys (api : Api) : Bool :=
   (methodsOf api).any fun m =>
     let ks := (recordsFor api m).map (·.1)
@@ -369,8 +364,7 @@ def run (ins outs : List String) : Verdict :=
             tag := "composite:" ++ kind, model := renderOut mo }
         else
           { agree := mo == o, specOk := specDispatch api m p o,
-            known := (if oddStatic api then "F01c" else if uncleanTemplate api then "F01e" else "-"),
-            tag := kind, model := renderOut mo }
+            known := (if oddStatic api then "F01c" else "-"), tag := kind, model := renderOut mo }
     | _, _, _, _, _ => .bad "D fields"
   | _ => .bad "C01 stream"
 
